@@ -64,6 +64,28 @@ theorem seg_seg_minimal (tol : Rat) (htol : 0 < tol) (p0 p1 q0 q1 : Vec)
     (segSeg tol p0 p1 q0 q1).d2 ≤ nsq (vsub (along p0 p1 s) (along q0 q1 t)) :=
   segSeg_min tol htol p0 p1 q0 q1 h1 h2 h3 hreg s t hs0 hs1 ht0 ht1
 
+/-- the hypothesis `exact = true` is discharged for integer coordinates under an explicit bound:
+    if `tol·|p1-p0|²·|q1-q0|² ≤ 1` (for the kernel's `tol = 1e-8`: product of the two lengths at most 10⁴),
+    all numerators are integers and all denominators are at most `1/tol`, so neither tolerance test can
+    fire on a non-zero quantity — global minimality holds unconditionally. -/
+theorem seg_seg_minimal_int (tol : Rat) (htol : 0 < tol) (p0 p1 q0 q1 : Vec)
+    (h1 : p0.length = p1.length) (h2 : p0.length = q0.length) (h3 : q0.length = q1.length)
+    (i0 : IntVec p0) (i1 : IntVec p1) (j0 : IntVec q0) (j1 : IntVec q1)
+    (hbound : tol * nsq (vsub p1 p0) * nsq (vsub q1 q0) ≤ 1)
+    (s t : Rat) (hs0 : 0 ≤ s) (hs1 : s ≤ 1) (ht0 : 0 ≤ t) (ht1 : t ≤ 1) :
+    (segSeg tol p0 p1 q0 q1).exact = true ∧
+    (segSeg tol p0 p1 q0 q1).d2 ≤ nsq (vsub (along p0 p1 s) (along q0 q1 t)) := by
+  have hreg : (segSeg tol p0 p1 q0 q1).exact = true := by
+    rw [(segSeg_fields tol p0 p1 q0 q1).2.2.2.2.2]
+    have iu := i1.vsub i0
+    have iv := j1.vsub j0
+    have iw := i0.vsub j0
+    exact exactRegime_of_int htol (iu.dot iu) (iu.dot iv) (iv.dot iv) (iu.dot iw) (iv.dot iw)
+      (nsq_nonneg _) (nsq_nonneg _) hbound
+  exact ⟨hreg, segSeg_min tol htol p0 p1 q0 q1 h1 h2 h3 hreg s t hs0 hs1 ht0 ht1⟩
+
+example : (1 / 100000000 : Rat) * nsq (vsub [30, 40, 0] [0, 0, 0]) * nsq (vsub [0, 7, 99] [0, 7, 0]) ≤ 1 := by decide +kernel
+
 -- parallel, overlapping
 example : (segSeg (1 / 100000000) [0, 0, 0] [2, 0, 0] [1, 1, 0] [3, 1, 0]).exact = true ∧
     (segSeg (1 / 100000000) [0, 0, 0] [2, 0, 0] [1, 1, 0] [3, 1, 0]).d2 = 1 := by decide +kernel
@@ -197,6 +219,85 @@ example : (ptPoly [1 / 2, 1 / 2, 3] [[0, 0, 0], [1, 0, 0], [1, 1, 0], [0, 1, 0]]
     nsq (normal [[0, 0, 0], [1, 0, 0], [1, 1, 0], [0, 1, 0]]) ≠ 0 := by decide +kernel
 example : (ptPoly [2, 1 / 2, 1] [[0, 0, 0], [1, 0, 0], [1, 1, 0], [0, 1, 0]]).inside = false ∧
     (ptPoly [2, 1 / 2, 1] [[0, 0, 0], [1, 0, 0], [1, 1, 0], [0, 1, 0]]).d2 = 2 := by decide +kernel
+
+/-! ### convex polygons: the membership test decides membership, and the distance is the minimum over
+the WHOLE polygon (FULL for convex planar polygons)
+
+`InRegion poly x`: `x` lies in the polygon's plane and to the left of (or on) every edge, seen against the
+Newell normal — for a convex polygon (`ConvexPoly`: planar, strict left turn at every corner, every vertex in
+the half-plane of every edge) this is the closed polygon as a point set. -/
+
+/-- the winding-number test as coded decides membership for convex polygons: accepted points lie in the closed
+    polygon, and every point strictly inside is accepted (points on the boundary get the default `False`) -/
+theorem membership_convex (poly : List Vec) (C : ConvexPoly poly) (q : Vec) (hq : q.length = 3)
+    (pq : dot (vsub q (centroid poly)) (normal poly) = 0) :
+    (inPoly poly (normal poly) q = true → InRegion poly q) ∧
+    ((∀ g ∈ edges poly, 0 < side3 (normal poly) g.1 g.2 q) → inPoly poly (normal poly) q = true) :=
+  ⟨fun h => ⟨hq, pq, inPoly_sound poly C q hq pq h⟩, inPoly_complete poly C q hq pq⟩
+
+/-- a point whose projection is not strictly inside a convex polygon has its nearest polygon point on the
+    boundary: every point of the polygon is at least as far as some point of some edge -/
+theorem convex_nearest_on_boundary (poly : List Vec) (C : ConvexPoly poly) (p : Vec) (hp : p.length = 3)
+    (hout : ∃ g ∈ edges poly, side3 (normal poly) g.1 g.2 (projPlane (centroid poly) (normal poly) p) ≤ 0)
+    (x : Vec) (hx : InRegion poly x) :
+    ∃ g ∈ edges poly, ∃ t : Rat, 0 ≤ t ∧ t ≤ 1 ∧ nsq (vsub p (along g.1 g.2 t)) ≤ nsq (vsub p x) :=
+  convex_outside_bound poly C p hp hout x hx
+
+/-- `points_polygon` on a convex planar polygon returns the true distance: no point of the polygon is closer
+    than the returned distance, and the returned closest point belongs to the polygon and realises it -/
+theorem pt_polygon_minimal_convex (poly : List Vec) (C : ConvexPoly poly) (p : Vec) (hp : p.length = 3) :
+    (∀ x : Vec, InRegion poly x → (ptPoly p poly).d2 ≤ nsq (vsub p x)) ∧
+    InRegion poly (ptPoly p poly).cp ∧ (ptPoly p poly).d2 = nsq (vsub p (ptPoly p poly).cp) := by
+  have hc : (centroid poly).length = p.length := by rw [C.clen, hp]
+  have hn : (normal poly).length = p.length := by rw [C.nlen, hp]
+  have lq : (projPlane (centroid poly) (normal poly) p).length = 3 := by rw [length_projPlane _ _ _ hn, hp]
+  have pq := projPlane_in_plane (centroid poly) (normal poly) p hc hn C.nn
+  have hl : ∀ g ∈ edges poly, p.length = g.1.length ∧ g.1.length = g.2.length := fun g hg => by
+    obtain ⟨la, lb⟩ := C.len3 g hg
+    exact ⟨by rw [hp, la], by rw [la, lb]⟩
+  cases hin : (ptPoly p poly).inside with
+  | true =>
+    obtain ⟨m1, m2, m3⟩ := pt_poly_inside_plane_minimal p poly hc hn C.nn hin
+    have hI : inPoly poly (normal poly) (projPlane (centroid poly) (normal poly) p) = true := by
+      by_contra hI
+      unfold ptPoly at hin
+      simp only [] at hin
+      rw [if_neg hI] at hin
+      split at hin <;> simp at hin
+    have ecp : (ptPoly p poly).cp = projPlane (centroid poly) (normal poly) p := by
+      unfold ptPoly
+      simp only []
+      rw [if_pos hI]
+    refine ⟨fun x hx => m3 x (by rw [hx.1, hp]) hx.2.1, ?_, m2⟩
+    rw [ecp]
+    exact (membership_convex poly C _ lq pq).1 hI
+  | false =>
+    obtain ⟨b1, b2⟩ := pt_poly_outside_boundary_minimal p poly hl hin
+    have hI : ¬ inPoly poly (normal poly) (projPlane (centroid poly) (normal poly) p) = true := by
+      intro hI
+      unfold ptPoly at hin
+      simp only [] at hin
+      rw [if_pos hI] at hin
+      simp at hin
+    have hout : ∃ g ∈ edges poly, side3 (normal poly) g.1 g.2 (projPlane (centroid poly) (normal poly) p) ≤ 0 := by
+      by_contra hno
+      apply hI
+      apply (membership_convex poly C _ lq pq).2
+      intro g hg
+      by_contra hle
+      exact hno ⟨g, hg, not_lt.mp hle⟩
+    have hne : edges poly ≠ [] := by
+      obtain ⟨g, hg, _⟩ := hout
+      intro h; rw [h] at hg; simp at hg
+    obtain ⟨g, hg, t, t0, t1, ecp, ed⟩ := b2 hne
+    refine ⟨fun x hx => ?_, ?_, ed⟩
+    · obtain ⟨g', hg', t', t0', t1', hle⟩ := convex_outside_bound poly C p hp hout x hx
+      exact le_trans (b1 g' hg' t' t0' t1') hle
+    · rw [ecp]
+      exact edge_in_region poly C g hg t t0 t1
+
+-- the unit square is a convex polygon in this sense; distance from a point beside and above it
+example : (ptPoly [3, 1 / 2, 4] [[0, 0, 0], [1, 0, 0], [1, 1, 0], [0, 1, 0]]).d2 = 20 := by decide +kernel
 
 /-! ### segment – polygon (CORE) -/
 
